@@ -15,11 +15,15 @@ RULE = (
     'invalid, mis-ordered texts), rule.cssText =, sheet.encoding =, namespaces[p] = uri, del namespaces[p], and the same '
     'insert / add / delete on the rule lists of @media and @page rules; insertRule(rule list) / cssRules.extend(rule list) with lists '
     'of allowed and disallowed kinds parsed from another sheet; setProperty(Property object taken from another declaration block); '
-    '@page texts that repeat a margin box (merged); error mode raise/log chosen per history. '
+    '@page texts that repeat a margin box (merged); insertRule(rule, index, inOrder=True); re-insertion of rule objects removed '
+    'earlier; a @namespace rule shadowing a prefix in use; rule.style= / selectorText= / selectorList= / media= (text or object); '
+    'error mode raise/log chosen per history. '
     'Invariant after every step, accepted or rejected: at most one @charset and only first; every @import before every '
     '@namespace before every style/media/page/font-face rule; @media lists hold no charset/import/namespace/font-face/'
     'margin rule, @page lists only margin rules; every reachable rule / declaration block / property names its actual '
-    'container as parent and removed objects name none; the rule types with non-empty text equal the rule types of the '
+    'container as parent (parentStyleSheet, parentRule and parent; style, selector list and media list name their rule) and '
+    'removed objects name none - removed rules, replaced declaration blocks / selector lists / media lists, and rule objects that '
+    'were offered to an insertion but are not in the sheet; the rule types with non-empty text equal the rule types of the '
     'reparsed serialisation. Plus all histories of length <= 2 over a reduced alphabet (exhaustive). Non-trivial: >= 3 '
     'effective steps with an insert/add after a delete or text replacement, or a rejected step followed by an accepted '
     'one; distinct by history.'
@@ -30,16 +34,18 @@ ASSUMPTIONS = [
     'imports are resolved by a fetcher serving empty sheets',
 ]
 
-KINDS = ['charset', 'import', 'namespace', 'variables', 'media', 'page', 'fontface', 'style', 'comment', 'unknown', 'margin']
+KINDS = ['charset', 'import', 'namespace', 'variables', 'media', 'page', 'fontface', 'style', 'comment', 'unknown', 'margin', 'namespace-shadow']
 TEXT = {
     'charset': '@charset "utf-8";', 'import': '@import "x.css";', 'namespace': '@namespace q "http://q.example";',
     'variables': '@variables { x: 1px }', 'media': '@media print { m { top: 0 } }', 'page': '@page :first { margin: 0 }',
     'fontface': '@font-face { font-family: "F"; src: url(f.woff) }', 'style': 's { color: red }', 'comment': '/* c */',
     'unknown': '@foo bar;', 'margin': '@top-left { content: "x" }',
+    'namespace-shadow': '@namespace p "http://shadow.example";',  # the prefix the initial sheets use, another URI
 }
 INIT = ['', 'a { top: 0 }', '@charset "ascii"; @import "i.css"; @namespace p "http://p.example"; p|a { top: 0 }',
         '/* c */ @import "i.css"; b { left: 0 } @media tv { c { top: 0 } @page { margin: 0 } } @page { margin: 1cm; @top-left { x: y } }',
-        '@namespace "http://d.example"; @font-face { font-family: "F"; src: url(f) } d { top: 0 } @foo;']
+        '@namespace "http://d.example"; @font-face { font-family: "F"; src: url(f) } d { top: 0 } @foo;',
+        '@import "i.css";', '@import "i.css"; @namespace p "http://p.example";']
 SHEET_TEXTS = ['a { top: 0 } b { left: 0 }', '@import "late.css"; c {}', 'x { top: 0 } @import "late.css";', 'a {',
                '@namespace z "http://z.example"; z|a { top: 0 }', 'a,,b { top: 0 }', '@charset "utf-8"; a { top: 0 } @charset "ascii";',
                '@media print { @import "x"; a { top: 0 } }', 'zz|a { top: 0 }', '',
@@ -61,6 +67,8 @@ def make_object(kind):
         return css.CSSImportRule(href='o.css')
     if kind == 'namespace':
         return css.CSSNamespaceRule(namespaceURI='http://o.example', prefix='o')
+    if kind == 'namespace-shadow':
+        return css.CSSNamespaceRule(namespaceURI='http://shadow2.example', prefix='p')
     if kind == 'variables':
         r = css.CSSVariablesRule()
         r.cssText = TEXT['variables']
@@ -101,6 +109,10 @@ op = st.one_of(
     st.tuples(st.just('nDelete'), st.integers(0, 4), st.integers(0, 4)),
     st.tuples(st.just('insertList'), st.integers(-1, 4), st.integers(0, len(LIST_TEXTS) - 1), st.integers(0, 4), st.booleans()),
     st.tuples(st.just('setPropObj'), st.integers(0, 6), st.booleans()),
+    st.tuples(st.just('insertInOrder'), kind_s, st.booleans(), st.integers(0, 8)),
+    st.tuples(st.just('reinsert'), st.integers(0, 6), st.booleans(), st.integers(0, 8)),
+    st.tuples(st.just('styleSet'), st.integers(0, 6), st.integers(0, 3)),
+    st.tuples(st.just('mediaSet'), st.integers(0, 4), st.booleans()),
 )
 strategy = st.fixed_dictionaries({
     'init': st.integers(0, len(INIT) - 1), 'raising': st.booleans(), 'ops': st.lists(op, min_size=1, max_size=12),
@@ -135,6 +147,12 @@ def check_invariants(sheet, removed, step):
                 raise Violation('parent:rule.parentStyleSheet', f'after {step}: {r.typeString} {r.cssText[:40]!r} names {r.parentStyleSheet!r}')
             if r.parentRule is not container:
                 raise Violation('parent:rule.parentRule', f'after {step}: {r.typeString} names {r.parentRule!r}, container {container!r}')
+            if getattr(r, 'parent', container) is not container:
+                raise Violation('parent:rule.parent', f'after {step}: {r.typeString}.parent is {r.parent!r}, container {container!r}')
+            for attr in ('selectorList', 'media'):
+                part = getattr(r, attr, None)
+                if part is not None and r.type in (R.STYLE_RULE, R.MEDIA_RULE, R.IMPORT_RULE) and getattr(part, 'parentRule', r) is not r:
+                    raise Violation('parent:' + attr + '.parentRule', f'after {step}: {attr} of {r.typeString} names {part.parentRule!r}')
             style = getattr(r, 'style', None)
             if style is not None and r.type != R.COMMENT:
                 if style.parentRule is not r:
@@ -155,9 +173,25 @@ def check_invariants(sheet, removed, step):
 
     parents(rules, None)
     living = list(walk(sheet.cssRules))
+    living_parts = []
+    for r in living:
+        for attr in ('style', 'selectorList', 'media'):
+            part = getattr(r, attr, None)
+            if part is not None:
+                living_parts.append(part)
     for obj, how in removed:
+        if how.startswith('part:'):
+            # a declaration block / selector list / media list that was replaced
+            if any(obj is x for x in living_parts):
+                continue
+            owner = getattr(obj, 'parentRule', None)
+            if owner is not None and any(owner is r for r in living):
+                raise Violation('parent:replaced-part-still-names-rule:' + how[5:], f'after {step}: replaced {type(obj).__name__} names {owner.typeString}')
+            continue
         if any(obj is r for r in living):
             continue  # re-attached later
+        if getattr(obj, 'parent', None) is not None and not (obj.parentRule is not None and obj.parent is obj.parentRule):
+            raise Violation('parent:removed-object-still-names-container:parent', f'after {step}: {obj.typeString} ({how}) has parent {obj.parent!r}')
         # an object removed together with its container may keep naming that (removed) container
         in_removed_container = obj.parentRule is not None and not any(obj.parentRule is r for r in living)
         if obj.parentStyleSheet is not None or (obj.parentRule is not None and not in_removed_container):
@@ -210,13 +244,52 @@ def check(case, ctx):
             step = f'op {k} {o!r} (raising={case["raising"]}, init={case["init"]})'
             kind = o[0]
             before_rules = list(walk(sheet.cssRules))
+            before_parts = [(attr, getattr(r, attr)) for r in before_rules for attr in ('style', 'selectorList', 'media')
+                            if getattr(r, attr, None) is not None]
+            offered = None
             rejected = False
             try:
                 if kind == 'insert':
                     arg = make_object(o[1]) if o[2] else TEXT[o[1]]
+                    offered = arg if o[2] else None
                     sheet.insertRule(arg, min(o[3], sheet.cssRules.length + 1))
                 elif kind == 'add':
-                    sheet.add(make_object(o[1]) if o[2] else TEXT[o[1]])
+                    arg = make_object(o[1]) if o[2] else TEXT[o[1]]
+                    offered = arg if o[2] else None
+                    sheet.add(arg)
+                elif kind == 'insertInOrder':
+                    arg = make_object(o[1]) if o[2] else TEXT[o[1]]
+                    offered = arg if o[2] else None
+                    sheet.insertRule(arg, min(o[3], sheet.cssRules.length), inOrder=True)
+                elif kind == 'reinsert':
+                    gone_rules = [r for r, how in removed if not how.startswith('part:') and not any(r is x for x in before_rules)
+                                  and r.type != r.MARGIN_RULE]
+                    if not gone_rules:
+                        continue
+                    offered = gone_rules[o[1] % len(gone_rules)]
+                    if o[2]:
+                        sheet.add(offered)
+                    else:
+                        sheet.insertRule(offered, min(o[3], sheet.cssRules.length))
+                elif kind == 'styleSet':
+                    styled = [r for r in before_rules if r.type in (r.STYLE_RULE, r.PAGE_RULE, r.FONT_FACE_RULE)]
+                    if not styled:
+                        continue
+                    t = styled[o[1] % len(styled)]
+                    if o[2] == 0:
+                        t.style = 'left: 1px'
+                    elif o[2] == 1:
+                        t.style = css.CSSStyleDeclaration(cssText='right: 2px')
+                    elif t.type == t.STYLE_RULE:
+                        t.selectorText = 'k, l'
+                    if o[2] == 3 and t.type == t.STYLE_RULE:
+                        t.selectorList = css.SelectorList(selectorText='m')
+                elif kind == 'mediaSet':
+                    ms = [r for r in before_rules if r.type in (r.MEDIA_RULE, r.IMPORT_RULE)]
+                    if not ms:
+                        continue
+                    t = ms[o[1] % len(ms)]
+                    t.media = 'tv' if o[2] else cssutils.stylesheets.MediaList('projection')
                 elif kind == 'delete':
                     if o[2] and sheet.cssRules.length:
                         sheet.deleteRule(sheet.cssRules[o[1] % sheet.cssRules.length])
@@ -281,10 +354,19 @@ def check(case, ctx):
             how = {'delete': 'deleteRule', 'nDelete': 'deleteRule', 'sheetText': 'sheet.cssText=', 'ruleText': 'rule.cssText=',
                    'nsDel': 'del namespaces[]'}.get(kind, kind)
             removed.extend((r, how) for r in gone)
+            now_parts = [getattr(r, attr) for r in now for attr in ('style', 'selectorList', 'media') if getattr(r, attr, None) is not None]
+            for attr, part in before_parts:
+                if not any(part is x for x in now_parts):
+                    removed.append((part, 'part:' + attr + ' replaced by ' + how))
+            if offered is not None and not any(offered is x for x in now):
+                # an object that was offered but is not part of the sheet must not claim to be
+                if offered.parentStyleSheet is sheet or any(offered.parentRule is x for x in now):
+                    raise Violation('parent:object-not-inserted-names-sheet:' + kind + (':rejected' if rejected else ':accepted'),
+                                    f'{step}: {offered.typeString} is not in the sheet but names {offered.parentStyleSheet!r}')
             check_invariants(sheet, removed, step)
             if not rejected:
                 effective += 1
-                if kind in ('insert', 'add', 'nInsert', 'nAdd', 'insertList') and (after_removal or last_rejected) and effective >= 3:
+                if kind in ('insert', 'add', 'nInsert', 'nAdd', 'insertList', 'insertInOrder', 'reinsert') and (after_removal or last_rejected) and effective >= 3:
                     nontrivial = True
                 if gone:
                     after_removal = True
